@@ -353,6 +353,15 @@ def _stage(plan: dict, res: Result, stage: str) -> Result:
         if builder.xor_tile(bytes(6144), gr.payload_xor_key or b"") != builder.xor_tile(bytes(6144), key):
             violate(("C17", "wrong_key", plan["entry"]),
                         f"payload_xor_key {gr.payload_xor_key.hex()[:60]} is not the environmental key {key.hex()[:60]} (mod tiling)")
+        else:
+            # the environmental key itself, not a multiple of it: a key and its repetitions mask identically, so what can be
+            # recovered is the shortest key (of at least two bytes) that tiles like the original - for an aperiodic key, the key
+            tile = builder.xor_tile(bytes(6144), key)
+            shortest = next(key[:p_] for p_ in range(2, len(key) + 1) if builder.xor_tile(bytes(6144), key[:p_]) == tile)
+            if bytes(gr.payload_xor_key) != shortest:
+                violate(("C17", "wrong_key", "repetition_of_the_key", plan["entry"]),
+                        f"payload_xor_key has {len(gr.payload_xor_key)} bytes ({gr.payload_xor_key.hex()[:60]}), the environmental key "
+                        f"{shortest.hex()[:60]} has {len(shortest)}" + (f" (the shortest tile of the {len(key)}-byte key used)" if shortest != key else ""))
         got_guard = [(s.option.value, s.type.value, s.length, bytes(s.value)) for s in gr.settings]
         cp = g.get("checksum_pos")
         ci = len(want_guard) if cp is None else max(1, min(cp, len(want_guard)))
